@@ -117,6 +117,17 @@ func (s *gateSched) run(forced []int, lateB func(), lateAfter int) (taken []int)
 			if !waitCondTimeout(s.cond, 50*time.Millisecond) && time.Now().After(overall) {
 				break
 			}
+			if len(s.parked) == 0 && lateB != nil && !s.done["A"] {
+				// A neither parks nor finishes (blocked, e.g. Close waiting for the reader under
+				// WithNoConnClose) before B's launch point: B enters now
+				f := lateB
+				lateB = nil
+				s.mu.Unlock()
+				f()
+				s.mu.Lock()
+
+				continue
+			}
 			// a role that runs without ever reaching a gate again (e.g. Do waiting for its callback)
 			// ends the exploration once the other one is done
 			if len(s.parked) == 0 && (s.done["A"] || s.done["B"]) {
@@ -196,6 +207,10 @@ type exploreCase struct {
 	Fallback    bool   `json:"fallback,omitempty"`
 	Schedule    []int  `json:"schedule"`
 	LateB       int    `json:"late_b,omitempty"` // B is launched only after A has been released from this many gates
+	// NoWaitColl: the collector's Close does not wait for a tick in progress (like the repository's own test
+	// collectors), so Close can run to completion between any two steps of a retransmission. Exactly-once (C10)
+	// must survive that; "no handler after Close returned" (C15) presupposes a waiting collector and is not asserted.
+	NoWaitColl bool `json:"no_wait_collector,omitempty"`
 }
 
 type exTx struct {
@@ -221,6 +236,7 @@ func runExplore(c exploreCase) (taken []int, trace []string, err error) {
 		return nil, nil, werr
 	}
 	defer w.Release()
+	w.Coll.NoWait = c.NoWaitColl
 	s := newGateSched()
 	w.Agent.Before = func(op string, _ [12]byte) { s.gate("agent." + op) }
 	w.Agent.After = func(op string, _ [12]byte, _ error) { s.gate("agent." + op + ".ret") }
@@ -428,7 +444,7 @@ func runExplore(c exploreCase) (taken []int, trace []string, err error) {
 			return taken, trace, fmt.Errorf("id %d (Do=%v): Start returned nil, handler ran %d times (want 1); schedule %v, gates %v", t.id, t.isDo, n, taken, trace)
 		case t.err != nil && n != 0:
 			return taken, trace, fmt.Errorf("id %d: Start returned %v but the handler ran %d times; schedule %v, gates %v", t.id, t.err, n, taken, trace)
-		case n > 0 && t.seq.Load() > cs:
+		case n > 0 && t.seq.Load() > cs && !c.NoWaitColl:
 			return taken, trace, fmt.Errorf("id %d: handler invoked after Close returned; schedule %v, gates %v", t.id, taken, trace)
 		}
 		if k, _ := t.kind.Load().(string); k == "timeout" && !noRetrans {
@@ -484,9 +500,12 @@ func exploreAll(t *testing.T, rec *evid.Rec, prop string, budget int, only func(
 					// transactions never share an id.
 					continue
 				}
-				for v := 0; v < 2; v++ {
+				for v := 0; v < 3; v++ {
 					if v == 1 && !evid.Thorough() && a != "close" && b != "close" {
 						continue // quick tier: the WithNoConnClose/fallback variant only where Close takes part
+					}
+					if v == 2 && (prop != "C10" || !((a == "tick" && b == "close") || (a == "close" && b == "tick"))) {
+						continue // non-waiting collector: only tick || Close, only for exactly-once
 					}
 					idx++
 					if idx%nshards != shard {
@@ -498,8 +517,30 @@ func exploreAll(t *testing.T, rec *evid.Rec, prop string, budget int, only func(
 					}
 					seen := map[string]bool{}
 					runs := 0
+					// B as one atomic step inserted after each of A's first gates: B is launched late and then
+					// always preferred, so it runs to completion (or until it blocks on A) before A continues.
+					ones := make([]int, 32)
+					for i := range ones {
+						ones[i] = 1
+					}
+					for late := 0; late <= evid.Pick(8, 12); late++ {
+						c := exploreCase{State: st, A: a, B: b, NoConnClose: v == 1, Fallback: v == 1, LateB: late, NoWaitColl: v == 2, Schedule: ones}
+						taken, trace, err := runExplore(c)
+						runs++
+						key := fmt.Sprint(trace)
+						rec.Case("interleaving:"+a+"||"+b, evid.NewH().Str(st).Str(a).Str(b).I(v).Str(key).Sum(), !seen[key] && len(trace) > 1, func() any {
+							return map[string]any{"case": c, "gates": trace}
+						})
+						seen[key] = true
+						if err != nil {
+							c.Schedule = taken
+							pbt.Fail(t, rec, "explore", c, "%v", err)
+
+							return
+						}
+					}
 					for _, late := range lates {
-						base := exploreCase{State: st, A: a, B: b, NoConnClose: v == 1, Fallback: v == 1, LateB: late}
+						base := exploreCase{State: st, A: a, B: b, NoConnClose: v == 1, Fallback: v == 1, LateB: late, NoWaitColl: v == 2}
 						// depth-first search over two-way decisions
 						stack := [][]int{{}}
 						lruns := 0
